@@ -41,11 +41,17 @@ def lab_state(lab):
     return out
 
 
-def blob_text(n, valid):
+def blob_text(n, valid, style="canon"):
+    """JSON text of exactly n characters; the same value can be written in several ways - with the separators
+    json.dumps would use ('canon'), without any blank ('compact'), with characters json.dumps would escape ('nonascii')"""
     if not valid:
         return "x" * n
     if n < 9:
         return "{}" if n == 2 else "[" + "1" * (n - 2) + "]"
+    if style == "compact":
+        return '{"k":"' + "x" * (n - 8) + '"}'
+    if style == "nonascii":
+        return '{"k": "' + "\u00e9" * (n - 9) + '"}'
     return '{"k": "' + "x" * (n - 9) + '"}'
 
 
@@ -156,11 +162,19 @@ class DomainRunner:
             tg = Tags.from_json(json.dumps(list(o["items"] or [])))
             self.tags = list(tg.tags) if tg is not None else []
         elif op == "ElemSetTags":
+            # the 'current' value may have come from another path (plain constructor, decoding): a refused assignment
+            # changes it only if what the element holds changed
+            tg0 = self.node.get_property("tags")
+            before = list(tg0.tags) if tg0 is not None else []
+            ok = False
             try:
                 self.node.set_property("tags", Tags(*list(o["items"] or [])))
+                ok = True
             finally:
                 tg = self.node.get_property("tags")
-                self.tags = list(tg.tags) if tg is not None else []
+                now = list(tg.tags) if tg is not None else []
+                if ok or now != before:
+                    self.tags = now
         elif op == "SetName":
             sl = SLIVER[o["kind"]]()
             sl.set_name(o["name"])
@@ -187,13 +201,18 @@ class DomainRunner:
             sl.set_boot_script("x" * o["len"])
             self.boot = len(sl.get_boot_script())
         elif op == "ElemSetBoot":
+            b0 = self.node.get_property("boot_script")
+            ok = False
             try:
                 self.node.set_property("boot_script", "x" * o["len"])
+                ok = True
             finally:
                 b = self.node.get_property("boot_script")
-                self.boot = len(b) if b is not None else self.boot
+                if ok or b != b0:                       # (as for tags: a refused call changes the current value only if the element changed)
+                    self.boot = len(b) if b is not None else 0
         elif op == "BlobText":
-            b = BLOB[o["cls"]](blob_text(o["len"], o["valid"]))
+            b = BLOB[o["cls"]](blob_text(o["len"], o["valid"], o.get("style", "canon")))
+            b.data                                                       # what was accepted decodes again
             self.blob = {"cls": o["cls"], "len": len(b.json)}
         elif op == "BlobObject":
             b = BLOB[o["cls"]](blob_obj(o["len"], o["valid"]))
@@ -201,7 +220,9 @@ class DomainRunner:
         elif op == "ElemSetBlob":
             stored = False
             try:
-                self.node.set_property(o["cls"], BLOB[o["cls"]](blob_obj(o["len"], o["valid"])))
+                style = o.get("style", "object")
+                self.node.set_property(o["cls"], BLOB[o["cls"]](blob_obj(o["len"], o["valid"]) if style == "object"
+                                                              else blob_text(o["len"], o["valid"], style)))
                 stored = True
             finally:
                 if stored:
